@@ -28,6 +28,7 @@ META = {
 
 QUICK = [
     (("TA", dict(T=3)), 2),
+    (("TA", dict(T=3, int_init=True)), 2),  # continuous initial states supplied as an integer array
     (("TB", dict(T=2)), 3),
     (("TC", dict(T=2, nw=3, nc=2)), 2),
     (("TD", dict(T=2, nw=3)), 1),
